@@ -840,6 +840,14 @@ func (env *SpecEnv) evalCall(n ECall) specVal {
 			return specVal{env.e.sym.Fresh("ghost!"+id, SBool), boolT}
 		}
 		sfail("unknown ghost %s", id)
+	case "sshauthkey":
+		// sshauthkey(): the key the modelled ssh handshake of this path authenticated (ghost)
+		tag, ok1 := env.st.ghost["ssh!auth!tag"]
+		val, ok2 := env.st.ghost["ssh!auth!val"]
+		if !ok1 || !ok2 {
+			tag, val = env.e.sym.Fresh("sshauth!none!tag", SInt), env.e.sym.Fresh("sshauth!none!val", SInt)
+		}
+		return specVal{VIface{Tag: tag, Val: val}, nil}
 	case "recvfrom":
 		// recvfrom(ch): a select of this path completed through a receive case on channel ch
 		if env.callSite {
